@@ -464,3 +464,32 @@ Fixpoint posokb (e : expr) : bool :=
   | EEwd _ x d => ok_at LowestPrec 8 x && ok_at LowestPrec UnaryPrec d && posokb x && posokb d
   | ELam _ _ rhs rp => forallb posokb rhs && (rp || negb (match rhs with a :: _ => starts_lp a | [] => false end))
   end.
+
+(* no explicit parentheses anywhere (the trees C22 speaks about) *)
+Fixpoint noparb (e : expr) : bool :=
+  match e with
+  | EId _ | ELit _ _ => true
+  | EPar _ => false
+  | EUn _ x | EStar x | ESel x _ | EEw _ x => noparb x
+  | EBin _ x y | EIdx x y | EEwd _ x y => noparb x && noparb y
+  | ECall f args _ => noparb f && forallb noparb args
+  | ELam _ _ rhs _ => forallb noparb rhs
+  end.
+
+(* the printer adds no parentheses and drops none: every operand is at least as tight as its
+   position, no doubled parentheses (true of every tree the parser returns) *)
+Definition tight (p : Z) (x : expr) : bool := negb (plev x <? p).
+Fixpoint noaddb (e : expr) : bool :=
+  match e with
+  | EId _ | ELit _ _ => true
+  | EBin op x y => tight (prec op) x && tight (prec op + 1) y && noaddb x && noaddb y
+  | EUn _ x => tight UnaryPrec x && noaddb x
+  | EStar x => noaddb x
+  | EPar x => negb (is_par x) && noaddb x
+  | ECall f args _ => tight HighestPrec f && noaddb f && forallb noaddb args
+  | EIdx x i => tight HighestPrec x && noaddb x && noaddb i
+  | ESel x _ => tight HighestPrec x && noaddb x
+  | EEw _ x => noaddb x
+  | EEwd _ x d => noaddb x && noaddb d
+  | ELam _ _ rhs _ => forallb noaddb rhs
+  end.
